@@ -19,7 +19,7 @@ CHECKS = {
  "C07": ("exploration", "3", "bounded-exhaustive input enumeration (dot-segment and separator lenses); segment oracle computed from the raw input",
    "For every accepted string of the dot-segment/separator lenses the reported namespace and subpath segments are exactly the decoded non-skipped raw pieces; no empty, '.' or '..' subpath segment, no empty namespace segment."),
  "C09": ("model_checking", "3", "explicit-state breadth-first search over builder call histories on the real builder next to a reference record, plus exhaustive product of final states; oracle on every transition and state",
-   "Every builder call sequence up to the stated depth over the 18-string value universe (from every new(type,name) and from into_builder() of parsed values), and every final state of the namespace x name x version x subpath x type x qualifier product: public fields equal the reference record after every call, build() succeeds exactly when the reference predicate holds, accessors return what was set, and the string form re-parses to the same fields. String and PackageType."),
+   "Every builder call sequence up to the stated depth over the 19-string value universe (from every new(type,name) and from into_builder() of parsed values), and every final state of the namespace x name x version x subpath x type x qualifier product: public fields equal the reference record after every call, build() succeeds exactly when the reference predicate holds, accessors return what was set, and the string form re-parses to the same fields. String and PackageType."),
  "C10": ("exploration", "3", "bounded-exhaustive input enumeration; rebuild-identity oracle",
    "For every accepted string of the lenses, p.clone().into_builder().build() == Ok(p) with the identical string, for String, SmallString and PackageType."),
  "C03": ("exploration", "3", "exhaustive sweep over all 1,112,064 Unicode scalar values and all ASCII pairs in every component position (builder) plus bounded-exhaustive input enumeration (parser); independent renderer as oracle",
